@@ -75,9 +75,10 @@ def nontrivial(op):
     return w[1] != w[2]          # a conversion between two different channel models
 
 ASSUME = [
-    "non-divisible down-conversions (double arithmetic) and every float32 path: partial (float) -- the Lean model reproduces the IEEE operation "
-    "sequence with Float/Float32 (bit-exact correspondence), the theorems cover the exact-arithmetic reading; decided on the real code's output by the Spec "
-    "(complete enumeration for every source of at most 16 bits)",
+    "non-divisible down-conversions (double arithmetic) and the float32 paths: partial (float) RELATIVE TO FloatSpec -- proved for every rounding function satisfying "
+    "FloatSpec (Props/C06Float.lean, C06_float_*); trusted: the target's binary32/binary64 arithmetic is such a rounding (eps = 2^-24 / 2^-53) and the code performs the modelled "
+    "operation sequence (executable Float/Float32 model compared bit for bit; abstract model with the genuine binary32/binary64 instance evaluated by the Lean kernel on sampled conversions); "
+    "uint32_t <-> float32_t special converters and float32 <-> signed pairs: decided on the real code's output by the Spec only",
     "channel models outside {u8,u16,u32,i8,i16,i32,float32_t, packed values 1..16 bits, packed references} (e.g. packed_channel_value<17..64>, double channels) are outside the claim",
     "signed overflow does not occur in the translated kernels (checked by UBSan in the harness)",
 ]
